@@ -9,7 +9,7 @@ HOUT = {'ok': 'HOk', 'raise': 'HRaise', 'notimpl': 'HNotImpl', 'raise_unhashable
 PO = {'ok': 'Pok', 'fail': 'Pfail', 'error': 'Perr', 'skip': 'Pskip', 'exit': 'Perr', 'raise': 'Perr', 'die': 'Pok', 'error_unhashable': 'Perr', 'kbd': 'Pok'}
 
 
-ODD = ['cycle', 'ctxcycle', 'selfcause', 'deep', 'deepctx', 'badstr', 'badrepr', 'group', 'notes', 'args']
+ODD = ['cycle', 'ctxcycle', 'selfcause', 'deep', 'deepctx', 'badstr', 'badrepr', 'group', 'notes', 'args', 'syntaxerr']
 
 
 def po(x):
